@@ -12,14 +12,17 @@
    branch for each runtime value kind is Vue-runtime behaviour: the helper's text is compared
    with the Babel plugin's by the translator (tools/gen_tables.py), not proved. *)
 From VJ Require Import Model.Str Model.Json Model.Ast Model.State Model.Text Model.Lower
-  Spec.JsxText Spec.OutViews Spec.Site Spec.SiteCheck Lemmas.ChildProofs.
+  Spec.JsxText Spec.OutViews Spec.Site Spec.SiteCheck Lemmas.ChildProofs Lemmas.ElementProofs.
 
-Theorem C03_slots : forall E rec chk cs s s2 vslots,
-  rec_ok rec chk cs -> forallb child_ok cs = true ->
+Theorem C03_slots : forall E rec chk (P : st -> Prop),
+  (forall v s, P s -> P (snd (transform_jsx_text v s))) ->
+  (forall e s, P s -> P (mark_dynamic E e s)) ->
+  forall cs s s2 vslots,
+  P s -> rec_ok rec chk P cs -> forallb child_ok cs = true ->
   assign_left s2 = None ->
   check_children_with E chk true vslots cs
     (fst (finish_children E (fst (lower_children_with E rec cs s)) true vslots s2)) = [].
-Proof. intros. apply children_refine; auto. intros; discriminate. Qed.
+Proof. intros. eapply children_refine; eauto. intros; discriminate. Qed.
 Print Assumptions C03_slots.
 
 (* the shapes, spelled out: what [check_children_with] accepted above *)
@@ -58,3 +61,12 @@ Proof.
     rewrite OS. reflexivity.
 Qed.
 Print Assumptions C03_always_wrapped_when_off.
+
+(* the full statement on the fragment of Lemmas/ElementProofs.v (see Props/C01.v): no complaint of
+   any kind, in particular none of this property *)
+Theorem C03_full_statement_on_fragment : forall E,
+  o_merge_props (e_opts E) = false ->
+  forall h el, good E h el -> forall f s, (h <= f)%nat -> assign_left s = None ->
+  filter (starts_with (s_ "C03:")) (check_site E f el (fst (lower_el E el s))) = [].
+Proof. intros E MP h el G f s LE Q. destruct (element_refines E MP h el G f s LE Q) as [H _]. rewrite H. reflexivity. Qed.
+Print Assumptions C03_full_statement_on_fragment.
